@@ -206,6 +206,10 @@ def build_ann(s, env, spelling=None, preds=None):
             return typing.Optional[rest[0]] if len(rest) == 1 else typing.Optional[typing.Union[tuple(rest)]]
         if how == "tuple":
             return tuple(members)
+        if how == "tuple-none":  # None written for NoneType, as in Optional / A | None
+            return tuple(None if m is type(None) else m for m in members)
+        if how == "tuple-nested" and len(members) >= 3:  # (A, (B, C))
+            return (members[0], tuple(members[1:]))
         if how == "pipe":
             out = members[0]
             try:
@@ -285,7 +289,10 @@ def build_ann(s, env, spelling=None, preds=None):
     if k == "type":
         if len(s) == 1:
             return type
-        return type[build_ann(s[1], env, (sp if s[1][0] == "union" else None), preds)]
+        inner = build_ann(s[1], env, (sp if s[1][0] == "union" else None), preds)
+        if sp.get("type_inner") == "annotated":
+            inner = typing.Annotated[inner, "meta"]  # type[Annotated[A, ...]]
+        return type[inner]
     if k == "gen":
         return build_gen(s[1], s[2], env)
     raise ValueError(s)
